@@ -78,6 +78,14 @@ def from_expansion(ln):
     return isinstance(ln, list) and ln[1]
 
 
+class _All:
+    def __contains__(self, x):
+        return True
+
+
+_ALL = _All()
+
+
 class Fn:
     def __init__(self, prog, j):
         self.prog = prog
@@ -222,6 +230,12 @@ class Fn:
             phi = {"seen": {}, "choice": {}}
             evaluate(e, {"__phi__": phi})
             # choosing a definition may expose further multi-definition locals: iterate to a fixpoint
+            if not phi["seen"]:
+                v0 = evaluate(e, {})
+                tgt0 = switch_target(t, v0) if v0 is not UNK else None
+                if tgt0 is not None:
+                    switches[sb] = ((), {(): tgt0})      # switch on a constant: one live arm
+                continue
             keys = []
             for _ in range(3):
                 keys = sorted(k for k in phi["seen"] if k[0] == self.key)
@@ -290,6 +304,21 @@ class Fn:
         self._merges = (locs, switches)
         return self._merges
 
+    @property
+    def live_blocks(self):
+        """blocks reachable from the entry along feasible edges (cached); while it is being computed
+        every block counts as live"""
+        lb = getattr(self, "_live", None)
+        if lb is None:
+            self._live = _ALL
+            try:
+                self._live = self.reachable(0)
+            except Exception:
+                self._live = _ALL
+                raise
+            lb = self._live
+        return lb
+
     def _read_block(self, operand, x, depth=0):
         """block in which the value chain feeding `operand` reads local x"""
         if operand.get("k") not in ("copy", "move") or depth > 8:
@@ -347,7 +376,7 @@ class Fn:
     def _step(self, b, st):
         """(state after leaving b, feasible successors of b in that state)"""
         locs, switches = self.merges
-        if not locs:
+        if not locs and not switches:
             return st, self.succ[b]
         st2 = st
         for i, (x, dm) in enumerate(locs):
@@ -368,7 +397,7 @@ class Fn:
         cut_edges = set(cut_edges)
         if start in cut_blocks:
             return set()
-        ms = self.merges[0]
+        ms = self.merges[0] or self.merges[1]
         if not ms:
             seen = {start}
             q = deque([start])
@@ -380,7 +409,7 @@ class Fn:
                     seen.add(s)
                     q.append(s)
             return seen
-        st0 = _state if _state is not None else (None,) * len(ms)
+        st0 = _state if _state is not None else (None,) * len(self.merges[0])
         seen = {(start, st0)}
         q = deque([(start, st0)])
         while q:
@@ -401,7 +430,7 @@ class Fn:
         for s in succ:
             if (b, s) in cut_edges:
                 continue
-            out |= self.reachable(s, cut_blocks, cut_edges, _state=st2 if self.merges[0] else None)
+            out |= self.reachable(s, cut_blocks, cut_edges, _state=st2 if (self.merges[0] or self.merges[1]) else None)
         return out
 
     def path_between(self, src, dst, cut_blocks=(), cut_edges=()):
@@ -436,7 +465,7 @@ class Fn:
         """dom[b] = set of blocks dominating b (normal, feasible edges only)."""
         if self._dom is None:
             reach = self.reachable(0)
-            if self.merges[0]:
+            if self.merges[0] or self.merges[1]:
                 # with infeasible-path pruning: d dominates b iff b is unreachable once d is removed
                 dom = {b: {b, 0} for b in reach}
                 for d in reach:
@@ -675,6 +704,11 @@ class Program:
         self.impl_by_key = {i["key"]: i for i in self.impls}
         self.consts = {c["path"]: c for c in j["consts"]}
         self.adts = {a["path"]: a for a in j["adts"]}
+        try:
+            from . import expr as _expr
+            _expr.ADTS.update(self.adts)
+        except ImportError:
+            pass
         self._callers = None
         self._callees = None
         self._children = None
